@@ -62,6 +62,7 @@ def c_read(h):
     shape = h.ctx.choose(6, "shape")
     log = []
     entries = []
+    faults = []
     if shape == 0:
         content, exists = None, False
     elif shape == 1:
@@ -76,7 +77,30 @@ def c_read(h):
         n = h.ctx.choose(3, "n")
         for i in range(n):
             t = TYPES[h.ctx.choose(len(TYPES), "type%d" % i)]
-            data = _d(h, [("assumptions", Opaque("a%d" % i)), ("guarantees", Opaque("g%d" % i)), ("input_vars", Opaque("i%d" % i)), ("output_vars", Opaque("o%d" % i))])
+            if t == "PolyhedralIoContractCompound":
+                # compound entries are validated by the reader itself: alternatives are lists of strings
+                fault = ["none", "missing_key", "not_a_list", "alternative_not_a_list", "term_not_a_string", "name_not_a_string"][h.ctx.choose(6, "compound_fault%d" % i)]
+                fields = [
+                    ("assumptions", PList([PList(["A%d" % i], h.ctx), PList(["B%d" % i, "C%d" % i], h.ctx)], h.ctx)),
+                    ("guarantees", PList([PList(["G%d" % i], h.ctx)], h.ctx)),
+                    ("input_vars", PList(["x"], h.ctx)),
+                    ("output_vars", PList(["y"], h.ctx)),
+                ]
+                if fault == "missing_key":
+                    fields = fields[1:]
+                elif fault == "not_a_list":
+                    fields[1] = ("guarantees", "G")
+                elif fault == "alternative_not_a_list":
+                    fields[0] = ("assumptions", PList([PList(["A"], h.ctx), 3], h.ctx))
+                elif fault == "term_not_a_string":
+                    fields[1] = ("guarantees", PList([PList([3.5], h.ctx)], h.ctx))
+                elif fault == "name_not_a_string":
+                    fields[2] = ("input_vars", PList(["x", None], h.ctx))
+                if fault != "none":
+                    faults.append(fault)
+                data = _d(h, fields)
+            else:
+                data = _d(h, [("assumptions", Opaque("a%d" % i)), ("guarantees", Opaque("g%d" % i)), ("input_vars", Opaque("i%d" % i)), ("output_vars", Opaque("o%d" % i))])
             entries.append((t, "name%d" % i, data))
         content = PList([_d(h, [("type", t), ("name", nm), ("data", d)]) for t, nm, d in entries], h.ctx)
         exists = True
@@ -100,10 +124,11 @@ def c_read(h):
         ok = out.exc_is(h.I, ValueError) or out.exc_is(h.I, cfe)
         h.check("C14.read.only_documented_errors", ok, "raised %s at %s" % (out.exc_name, out.where))
         bad_type = any(t == "SomethingElse" for t, _, _ in entries)
-        h.check("C14.read.rejects_only_bad_files", shape in (0, 1, 2, 3) or bad_type, "a well-formed file was rejected")
+        h.check("C14.read.rejects_only_bad_files", shape in (0, 1, 2, 3) or bad_type or bool(faults), "a well-formed file was rejected")
         return
     h.cover("return")
     h.check("C14.read.malformed_file_rejected", shape >= 4 and all(t != "SomethingElse" for t, _, _ in entries), "a malformed file (shape %d) was accepted" % shape)
+    h.check("C14.read.malformed_compound_entry_rejected", not faults, "a compound entry with fault %s was accepted" % faults)
     r = out.value
     ok = isinstance(r, tuple) and len(r) == 2 and isinstance(r[0], PList) and isinstance(r[1], PList)
     h.check("C10.read.returns_contracts_and_names", ok, "%r" % (r,))
